@@ -89,7 +89,10 @@ pub(super) mod udp {
     use octo_squirrel::util::hex;
     use sha2::Digest;
     use sha2::Sha224;
+    #[cfg(not(octo_squirrel_verif))]
     use tokio::net::TcpStream;
+    #[cfg(octo_squirrel_verif)]
+    use octo_squirrel::verif::net::TcpStream;
     use tokio_rustls::client::TlsStream;
     use tokio_util::bytes::Buf;
     use tokio_util::bytes::BufMut;
